@@ -75,6 +75,23 @@ theorem constructor_returns {fl : α → Int} (hf : IsFloor fl) (feats : List (L
     ∃ ix, build fl feats res margin = .ok ix :=
   build_returns hf feats res margin hm hres hne
 
+/-- `collection_create_index`: `TrackCollection.createSpatialIndex(resolution, verbose)` hands its flag to the
+constructor in the position of `margin`; the index it makes is `SpatialIndex(collection, resolution, margin)` with
+`margin = 1` (`verbose=True`) or `margin = 0` (`verbose=False`, the extent is the bounding box and the extreme
+vertices lie on its upper border). Both are `≥ 0`: the call returns and every theorem of this file applies to the
+index. (`Network.createSpatialIndex` passes resolution, margin, verbose in order: it is the constructor.) -/
+theorem collection_create_index {fl : α → Int} (hf : IsFloor fl) (feats : List (List (α × α))) (res : Option (α × α))
+    (verbose : Bool) (hres : ∀ r, res = some r → 0 < r.1 ∧ 0 < r.2) (hne : feats.flatten ≠ []) :
+    ∃ m ix, 0 ≤ m ∧ (m = 1 ∨ m = 0) ∧ createIndexTC fl feats res verbose = build fl feats res m ∧
+      build fl feats res m = .ok ix := by
+  cases verbose with
+  | true =>
+    obtain ⟨ix, h⟩ := build_returns hf feats res (1 : α) zero_le_one hres hne
+    exact ⟨1, ix, zero_le_one, Or.inl rfl, by simp [createIndexTC], h⟩
+  | false =>
+    obtain ⟨ix, h⟩ := build_returns hf feats res (0 : α) (le_refl _) hres hne
+    exact ⟨0, ix, le_refl _, Or.inr rfl, by simp [createIndexTC], h⟩
+
 /-- `extent_point_cell`: on a built index every point `p` of the closed extent has a cell `cellOf` inside the grid
 (`0 ≤ i < csize`, `0 ≤ j < lsize`) whose closed square contains its fractional indices `c`: `i ≤ c.x ≤ i + 1`
 (`c.x < i + 1` except for the last column, which owns the upper border `c.x = csize`), likewise for `j`. -/
